@@ -221,6 +221,21 @@ def check_assembly(case, ctx):
     with package(name + '.fint'):
         f0 = np.asarray(ass.calc_fint(np.zeros(size), silent=True)).copy()
         fc = np.asarray(ass.calc_fint(c, silent=True)).copy()
+    # the state in another number type: single precision (a float32 design vector) and integers (the undeformed state as integer
+    # zeros) - the internal force is that of the same numbers in double precision
+    sdt = case.get('state_dtype')
+    if sdt == 'float32':
+        c32 = c.astype(np.float32)
+        with package(name + '.fint'):
+            f32 = np.asarray(ass.calc_fint(c32, silent=True), dtype=float).copy()
+            f64 = np.asarray(ass.calc_fint(c32.astype(float), silent=True), dtype=float).copy()
+        ctx.label('state:float32')
+        ctx.close('fint(float32 state)', f32, f64, 1e-12, bucket=name + '.fint.state-dtype', scale=np.max(np.abs(f64)) or 1.)
+    elif sdt == 'int':
+        with package(name + '.fint'):
+            fi = np.asarray(ass.calc_fint(np.zeros(size, dtype=int), silent=True), dtype=float).copy()
+        ctx.label('state:int')
+        ctx.close('fint(integer zeros)', fi, f0, 0., bucket=name + '.fint.state-dtype', atol=0.)
     with package(name + '.kT'):
         KT = dense(ass.calc_kT(c=c, silent=True))
     ctx.ok(np.array_equal(c, c_before), name + '.input-mutated', 'caller state vector was modified')
@@ -316,7 +331,7 @@ def _assembly_strategy(draw, tier='quick'):
                      'pos2': draw(st.sampled_from([0., 1.]))})
     return {'panels': panels, 'conn': conn, 'order': list(range(npan)), 'state': draw(_state_dict()),
             'nx': draw(st.integers(7, 10)), 'ny': draw(st.integers(7, 10)), 'dirseed': draw(st.integers(0, 2 ** 20)),
-            'kt_first': draw(st.booleans()),
+            'kt_first': draw(st.booleans()), 'state_dtype': draw(st.sampled_from([None, None, 'float32', 'int'])),
             'state_kinds': [draw(st.sampled_from(['general', 'general', 'membrane-only', 'bending-only'])) for _ in range(npan)]}
 
 
